@@ -26,6 +26,7 @@ var c13Fields = []c13Field{
 	{"dr", `{"s":"sup"}`, `(s:sup)`}, {"du", `{"int":3}`, `(int:3)`}, {"dea", `[1]`, `List(1)`}, {"da", `["z"]`, `List(z)`},
 	{"dem", `{"k":1}`, `(k:1)`}, {"dmm", `{"j":4}`, `(j:4)`},
 	{"dhb", `"\u00fe"`, `%C3%BE`},
+	{"dnb", `["y"]`, `List(y)`}, {"dnm", `{"m":"n"}`, `(m:n)`}, {"dna", `[[1]]`, `List(List(1))`},
 }
 
 func c13Doc(format int, present []bool, extra string) string {
@@ -107,6 +108,13 @@ func c13CheckField(d *vt.Defaults, i int, supplied bool) {
 	case 15:
 		// bytes default with bytes >= 0x80 (one code point per byte in the schema literal)
 		ok = d.Dhb != nil && (supplied && string(*d.Dhb) == "\xfe" || !supplied && string(*d.Dhb) == "\xff\x80a")
+	case 16:
+		// defaults whose JSON text contains "[]" / "{}" without being empty
+		ok = d.Dnb != nil && (supplied && len(*d.Dnb) == 1 && (*d.Dnb)[0] == "y" || !supplied && len(*d.Dnb) == 2 && (*d.Dnb)[0] == "[ ]" && (*d.Dnb)[1] == "{}")
+	case 17:
+		ok = d.Dnm != nil && (supplied && len(*d.Dnm) == 1 && (*d.Dnm)["m"] == "n" || !supplied && len(*d.Dnm) == 1 && (*d.Dnm)["k"] == "{}")
+	case 18:
+		ok = d.Dna != nil && (supplied && len(*d.Dna) == 1 && len((*d.Dna)[0]) == 1 && (*d.Dna)[0][0] == 1 || !supplied && len(*d.Dna) == 1 && len((*d.Dna)[0]) == 0)
 	case 14:
 		ok = d.Dmm != nil && (supplied && len(*d.Dmm) == 1 && (*d.Dmm)["j"] == 4 || !supplied && len(*d.Dmm) == 1 && (*d.Dmm)["k"] == 3)
 	}
